@@ -121,6 +121,7 @@ type interpreter struct {
 	inited       map[*ssa.Package]bool
 	schedPos     int
 	preempts     int
+	race         *raceState
 }
 
 type deferred struct {
@@ -299,6 +300,7 @@ func visitInstr(fr *frame, instr ssa.Instruction) continuation {
 
 	case *ssa.Store:
 		i.preemptMem(fr.get(instr.Addr), true)
+		i.touch(mustDeref(instr.Addr.Type()), fr.get(instr.Addr).(*value), true)
 		store(mustDeref(instr.Addr.Type()), fr.get(instr.Addr).(*value), fr.get(instr.Val))
 
 	case *ssa.If:
@@ -330,7 +332,8 @@ func visitInstr(fr *frame, instr ssa.Instruction) continuation {
 		case *closure:
 			name = f.Fn.String()
 		}
-		i.spawn(fn, args, instr.Pos(), name)
+		g := i.spawn(fn, args, instr.Pos(), name)
+		i.hbFork(g.id)
 		i.preempt("go")
 
 	case *ssa.MakeChan:
@@ -776,6 +779,7 @@ func Execute(cfg *Config, entry *ssa.Function) *Result {
 	if cfg.ExploreSched {
 		cfg.Sched = schedChoice
 		cfg.Preempt = preemptChoice
+		i.race = &raceState{vc: map[int]*vclock{}, mem: map[interface{}]*shadow{}, syncs: map[interface{}]*vclock{}, reads: map[interface{}]*vclock{}, report: map[string]bool{}}
 	}
 	runtimePkg := i.prog.ImportedPackage("runtime")
 	if runtimePkg == nil {
@@ -789,6 +793,15 @@ func Execute(cfg *Config, entry *ssa.Function) *Result {
 	g0.resume <- struct{}{}
 	<-i.finished
 	i.wg.Wait()
+	if i.res.Status == "ok" {
+		for _, ev := range i.res.Events {
+			if ev.Kind == "race" {
+				i.res.Status, i.res.Msg = "violation", "no-data-race"
+				i.res.Events = append(i.res.Events, Event{Kind: "violation", Label: "no-data-race", Value: ev.Value})
+				break
+			}
+		}
+	}
 	i.res.Path = i.path
 	i.res.Steps = i.steps
 	i.res.Goroutines = len(i.gs)
